@@ -257,6 +257,26 @@ def _encoder_ok(c: ast.Call, mm) -> Tuple[bool, str]:
         da = sorted([(d.line, v) for d, v, _ in mm.rd.value_exprs(n, c.args[0].id) if v is not None], key=lambda t: t[0])
         db = sorted([(d.line, v) for d, v, _ in mm.rd.value_exprs(n, c.args[1].id) if v is not None], key=lambda t: t[0])
         if da and len(da) == len(db):
+            # freshness: the histories must not change between the computation of the differences and their use
+            hist = {mm.X, mm.G}
+            writers = [m_ for m_ in mm.cfg.nodes if any(k_ in hist for k_, _, _ in node_defs(m_))]
+            try:
+                from ..alias import engine as _eng
+                fa_ = _eng(mm.ctx).fa[mm.f.qual]
+                writers += [m_.node for m_ in fa_.mutations if m_.target in hist]
+                writers += [n_ for n_, ck_, _, _ in fa_.stores_into if ck_ in hist]
+            except Exception:
+                pass
+            for nm_ in (c.args[0].id, c.args[1].id):
+                for d_, v_, _ in mm.rd.value_exprs(n, nm_):
+                    if v_ is None:
+                        continue
+                    after_d = mm.cfg.reachable(d_, follow_exc=False, avoid=lambda q_: q_ is not d_ and any(k_ == nm_ for k_, _, _ in node_defs(q_)))
+                    stale = [w_ for w_ in writers if w_ in after_d and w_ is not d_ and (n in mm.cfg.reachable(
+                        w_, follow_exc=False, avoid=lambda q_: any(k_ == nm_ for k_, _, _ in node_defs(q_))) or w_ is n)]
+                    if stale:
+                        return False, (f"`{nm_}` is computed at line {d_.line} but the history is rewritten at line {stale[0].line} before this "
+                                       f"construction on some path: the result carries differences of gradients that are no longer stored")
             whys = []
             for (la, va), (lb_, vb) in zip(da, db):
                 ok1, w1 = _encoder_ok(ast.Call(func=c.func, args=[va, vb], keywords=[]), mm)
